@@ -106,7 +106,9 @@ var JobTimeout = 60 * time.Second
 
 var errHang = fmt.Errorf("worker did not answer within the job timeout")
 
-func (w *worker) roundtrip(line []byte) ([]byte, error) {
+func (w *worker) roundtrip(line []byte) ([]byte, error) { return w.roundtripT(line, JobTimeout) }
+
+func (w *worker) roundtripT(line []byte, timeout time.Duration) ([]byte, error) {
 	if _, err := w.in.Write(append(line, '\n')); err != nil {
 		return nil, err
 	}
@@ -122,7 +124,7 @@ func (w *worker) roundtrip(line []byte) ([]byte, error) {
 	select {
 	case r := <-ch:
 		return r.bs, r.err
-	case <-time.After(JobTimeout):
+	case <-time.After(timeout):
 		w.cmd.Process.Kill()
 		<-ch
 		return nil, errHang
@@ -180,7 +182,31 @@ func (p *Pool) RunAll(jobs []*Job, each func(*Job, *Result)) []*Result {
 					if err == errHang {
 						_ = w.cmd.Wait()
 						w = nil
-						r = &Result{ID: j.ID, Outcome: GenHang, Msg: fmt.Sprintf("no result after %v", JobTimeout)}
+						// a timeout is a wall-clock verdict: confirm it once on a fresh worker with three times the
+						// budget before calling it a hang (a loaded machine must not raise an alarm)
+						if cw, cerr := startWorker(); cerr == nil {
+							out2, err2 := cw.roundtripT(line, 3*JobTimeout)
+							if err2 == nil {
+								var rr Result
+								if json.Unmarshal(out2, &rr) == nil {
+									w = cw
+									r = &rr
+									break
+								}
+							}
+							if err2 != errHang {
+								cw.stop()
+							} else {
+								_ = cw.cmd.Wait()
+							}
+							if err2 != nil && err2 != errHang {
+								// died on the second attempt: report what killed it
+								msg := tail(cw.stderr.String(), 4000)
+								r = &Result{ID: j.ID, Outcome: GenFatal, Msg: firstLine(msg), Stack: msg}
+								break
+							}
+						}
+						r = &Result{ID: j.ID, Outcome: GenHang, Msg: fmt.Sprintf("no result after %v, and again none after %v on a fresh worker", JobTimeout, 3*JobTimeout)}
 						break
 					}
 					if err != nil {
